@@ -8,8 +8,9 @@
    Statements only. *)
 From Coq Require Import Strings.String Strings.Byte.
 From Coq Require Import List Arith NArith Bool Lia.
-From Verif Require Import Model.Lockset Model.LockTable Model.C14Allow
-     Proofs.LocksetProofs Proofs.LockTableProofs Proofs.LocksetExecProofs Generated.C14Locks.
+From Verif Require Import Model.Lockset Model.LockTable Model.C14Allow Model.Handed
+     Proofs.LocksetProofs Proofs.LockTableProofs Proofs.LocksetExecProofs Proofs.HandedProofs
+     Generated.C14Locks Generated.C14Handed.
 Import ListNotations.
 
 (* For every execution - any number of threads, any interleaving that respects mutual exclusion
@@ -92,6 +93,77 @@ Print Assumptions C14_executable_raceb_exact.
 Theorem C14_executable_wfb_exact : forall tr, wfb tr = true <-> wf init tr.
 Proof. exact wfb_exact. Qed.
 Print Assumptions C14_executable_wfb_exact.
+
+(* ---- results handed to the user versus recycled (pooled) objects (Model/Handed.v) ----
+   After a call has completed, its callCmd's fields are read by the caller at any later time and
+   from any of its goroutines (threads 1, 2, ...), while the read loops (thread 0) keep recycling
+   their pooled per-message context. [handover s sched]: the reader fills the pooled object and
+   the call's field (a copy in memory of its own: [SrcCopy]; the pooled object itself:
+   [SrcAlias]), publishes the result by close(doneChan), then [sched] - any sequence of user
+   reads of the result and recycling writes of the pooled object.
+
+   A result that owns its memory: no race, for every continuation. *)
+Theorem C14_owned_result_race_free :
+  forall sched, wf init (handover SrcCopy sched) /\ ~ race (handover SrcCopy sched).
+Proof. exact handover_copy_race_free. Qed.
+Print Assumptions C14_owned_result_race_free.
+
+(* A result that aliases the recycled object: every continuation is a legal execution, and as
+   soon as it contains one user read and one recycling write - in either order, whatever else
+   happens - it has a data race. *)
+Theorem C14_recycled_alias_refuted :
+  forall sched u, In (URead u) sched -> In Recycle sched ->
+    wf init (handover SrcAlias sched) /\ race (handover SrcAlias sched).
+Proof.
+  intros sched u Hu Hr. split; [apply handover_alias_wf | eapply handover_alias_races; eauto].
+Qed.
+Print Assumptions C14_recycled_alias_refuted.
+
+(* ... and no locking discipline whatsoever describes it once the object is recycled *)
+Theorem C14_recycled_alias_follows_no_discipline :
+  forall D sched, existsb is_recycle sched = true ->
+    follows D init (handover SrcAlias sched) = false.
+Proof. exact handover_alias_no_discipline. Qed.
+Print Assumptions C14_recycled_alias_follows_no_discipline.
+
+(* The table derived from the current source (Generated/C14Handed.v, translator/
+   gen_c14handed.go): no value stored into a reference-typed field of callCmd / fakeCallCmd is an
+   alias of memory that a pooled object (handlerCtx, message, Args, ByteBuffer, socket) retains
+   across recycling, and no such field's object is given back to a pool. Re-evaluated on every
+   run. *)
+Theorem C14_user_results_not_recycled : handed_ok c14_handed = true.
+Proof. vm_compute. reflexivity. Qed.
+Print Assumptions C14_user_results_not_recycled.
+
+(* hence every row is, in the model, a result that owns its memory *)
+Theorem C14_handed_results_race_free :
+  forall r, In r c14_handed -> forall sched,
+    wf init (handover (src_of_row r) sched) /\ ~ race (handover (src_of_row r) sched).
+Proof. exact (handed_rows_race_free c14_handed C14_user_results_not_recycled). Qed.
+Print Assumptions C14_handed_results_race_free.
+
+(* a row classified recycled / released is the racy variant *)
+Theorem C14_recycled_row_races :
+  forall r, handed_bad r = true ->
+    forall sched u, In (URead u) sched -> In Recycle sched -> race (handover (src_of_row r) sched).
+Proof. exact handed_bad_row_races. Qed.
+Print Assumptions C14_recycled_row_races.
+
+(* Non-vacuity: the reply metadata of a call is stored by bindReply from the Args pool (owned
+   from then on); the analysis knows the memory it must not alias - message.meta is retained
+   across message.Reset and returned by the accessor Meta(), the context keeps its two messages -
+   and it knows the releasing functions. *)
+Example C14_example_handed :
+  existsb (fun r => String.eqb (h_struct r) "callCmd" && String.eqb (h_field r) "inputMeta" &&
+                    String.eqb (h_fn r) "handlerCtx.bindReply" && String.eqb (h_kind r) "pool")
+          c14_handed = true /\
+  retained_in c14_pooled "socket.message" "meta" = true /\
+  retained_in c14_pooled "erpc.handlerCtx" "input" = true /\
+  retained_in c14_pooled "socket.message" "status" = false /\
+  In ("socket.message", "Meta", "meta")%string c14_accessors /\
+  In "erpc/utils.ReleaseArgs"%string c14_releasers /\
+  12 <= length c14_handed.
+Proof. vm_compute. repeat split; auto 20; repeat constructor. Qed.
 
 (* Non-vacuity of the premises: a disciplined, well-formed two-thread execution. *)
 Example C14_example_locked :
